@@ -12,6 +12,14 @@
 // TMPDIR for the others) is part of the domain: cleaned, trailing "/", "//" inside, "/./" inside,
 // trailing "/.", relative with and without a leading "./"; in half of the cases the directory lies
 // below otherwise empty directories, which are outside it and have to survive.
+//
+// Known finding c06.unpack_link_physical_escape (unpack vets link targets lexically): cases of its
+// input class are either rewritten so that they leave the class, or kept and marked
+// (imgCase.KnownPhys); for a marked case the oracle discounts what the finding explains - directories
+// and symlinks created outside the target, symlinks left inside it that resolve outside - and still
+// flags a regular file created outside the target and every change or deletion there. The
+// self-referential-link family (genSelfRefFamily) builds the links that are inside for a lexical
+// check and outside on disk ("t -> .", "out -> t/t/../..") by construction and writes below them.
 package jailfam
 
 import (
